@@ -21,6 +21,7 @@ ASSUMPTIONS = [
     "a symbolic opcode byte is not decodable: halmos must raise NotConcreteError there, and jump-destination scanning legitimately stops",
     "symbolic bytes evaluated under one valuation with pairwise distinct byte values that differ from every alphabet byte",
     "random byte strings up to 4 KiB (sampling) are not claimed",
+    "code slices past the end are also observed through the instructions: (EXT)CODECOPY of the running code with offsets around its end, MSIZE and CODESIZE afterwards (MSIZE only after writes: reads that expand memory are the open finding D4 of C01)",
 ]
 
 STOP, ADD, JUMPDEST, PUSH0, PUSH1, PUSH2, PUSH32, INVALID = 0x00, 0x01, 0x5B, 0x5F, 0x60, 0x61, 0x7F, 0xFE
@@ -417,6 +418,63 @@ def check_jump(bs, target, cond):
 # ---------------------------------------------------------------------------
 
 
+# ---------------------------------------------------------------------------
+# code read through the instructions: CODECOPY / EXTCODECOPY of itself / CODESIZE on the real SEVM
+# ---------------------------------------------------------------------------
+
+FF = bytes([0xFF]) * 32
+COPY_SIZES = (0, 1, 31, 32, 33, 64)
+
+
+def copy_program(tail, op, off_kind, size, dst, dirty):
+    """[dirty 96 bytes of memory;] (EXT)CODECOPY(dst, off, size); word 96 := MSIZE, word 128 := CODESIZE; return mem[0:160]; <tail as data>.
+    off is given relative to the end of the code: "end-2" | "end-1" | "end" | "end+1" | "zero" | "huge" """
+    def body(off):
+        b = bytearray()
+        if dirty:
+            for a in (0, 32, 64):
+                b += bytes([PUSH32]) + FF + bytes([PUSH1, a, 0x52])
+        b += bytes([PUSH1, size, PUSH32]) + off.to_bytes(32, "big") + bytes([PUSH1, dst])
+        b += bytes([0x30, 0x3C]) if op == "EXTCODECOPY" else bytes([0x39])  # ADDRESS EXTCODECOPY | CODECOPY
+        b += bytes([0x59, PUSH1, 96, 0x52, 0x38, PUSH1, 128, 0x52, PUSH1, 160, PUSH0, 0xF3, STOP])  # MSIZE->96, CODESIZE->128, RETURN(0,160)
+        return bytes(b)
+    n = len(body(0)) + len(tail)
+    off = {"zero": 0, "end-2": n - 2, "end-1": n - 1, "end": n, "end+1": n + 1, "huge": 2**200 + 5}[off_kind]
+    return body(off) + bytes(tail)
+
+
+def check_copy(tail, op, off_kind, size, dst, dirty):
+    from halmos.contract import Contract
+    from mc import refevm
+
+    code = copy_program(tail, op, off_kind, size, dst, dirty)
+    res = run_code(Contract(code))
+    w = refevm.World()
+    w.code[0xAAAA] = code
+    w.storage[0xAAAA] = {}
+    w.transient[0xAAAA] = {}
+    ok, ret, err = refevm.transact(w, 0xAAAA, 0xBBBB, 0xBBBB, 0, b"")
+    want = (None if ok else err, ret.hex())
+    if len(res) != 1:
+        return f"{len(res)} paths: {res}", want
+    if res[0] != want:
+        got = res[0]
+        k = next((i for i in range(0, 320, 2) if (got[1] or "")[i:i + 2] != want[1][i:i + 2]), None)
+        return f"halmos {got[0]} {str(got[1])[:64]}..., EVM {want[0]} {want[1][:64]}...; first differing byte {k // 2 if k is not None else None} (code length {len(code)})", want
+    return None, want
+
+
+def copy_cases(tier):
+    tails = [[], [STOP], [PUSH1], [JUMPDEST, PUSH2, 0xA1], [PUSH32] + [0xA2] * 7]
+    for tail in tails:
+        for op in ("CODECOPY", "EXTCODECOPY"):
+            for off_kind in ("zero", "end-2", "end-1", "end", "end+1", "huge"):
+                for size in COPY_SIZES:
+                    for dst in ((0, 1, 70) if tier == "thorough" else (0, 70)):
+                        for dirty in (True, False):
+                            yield tail, op, off_kind, size, dst, dirty
+
+
 def bounds(tier):
     # (max length with every region [i,j), max length with prefix/suffix splits only, jump body max length)
     return (4, 4, 3) if tier == "quick" else (5, 6, 4)
@@ -432,6 +490,8 @@ def shards(tier, seed):
     out.append({"kind": "decode_short", "full": full})
     for a in ALPHABET:
         out.append({"kind": "jump", "first": a, "maxlen": jl})
+    for i in range(4):
+        out.append({"kind": "copy", "tier": tier, "i": i, "n": 4})
     return rotate(out, seed)
 
 
@@ -476,6 +536,17 @@ def run_shard(shard):
                         break
             if n == 3:
                 acc.sample({"code": bytes(bs).hex(), "regions": regions(n, True)[:4], "jumpdests_concrete": sorted(ref_jumpdests(bs))})
+    elif shard["kind"] == "copy":
+        for k, (tail, op, off_kind, size, dst, dirty) in enumerate(copy_cases(shard["tier"])):
+            if k % shard["n"] != shard["i"]:
+                continue
+            acc.count("copy_programs")
+            bad, want = check_copy(tail, op, off_kind, size, dst, dirty)
+            acc.outcome(("copy", want[1][:8], want[1][-70:-60]))
+            if bad:
+                acc.violation(f"copy:{bytes(tail).hex()}:{op}:{off_kind}:{size}:{dst}:{int(dirty)}", f"{op}(dst={dst}, off={off_kind}, size={size}) with data tail {bytes(tail).hex()}, memory {'dirty' if dirty else 'fresh'}: {bad}",
+                              {"kind": "copy", "tail": tail, "op": op, "off": off_kind, "size": size, "dst": dst, "dirty": dirty})
+        acc.sample({"copy_program": "dirty memory; CODECOPY(dst, codesize-1, 33); MSIZE; CODESIZE; RETURN(0,160)", "offsets": ["0", "end-2", "end-1", "end", "end+1", "2^200+5"], "sizes": list(COPY_SIZES)})
     else:
         a = shard["first"]
         for ln in range(1, shard["maxlen"] + 1):
@@ -498,7 +569,7 @@ def run_shard(shard):
 def coverage(tier, merged):
     c = merged["counts"]
     full, split_only, jl = bounds(tier)
-    ev = c.get("contracts", 0) + c.get("jump_programs", 0)
+    ev = c.get("contracts", 0) + c.get("jump_programs", 0) + c.get("copy_programs", 0)
     return {
         "evaluations": ev,
         "distinct_nontrivial": c.get("distinct_codes", 0) + c.get("jump_programs", 0),
@@ -512,6 +583,7 @@ def coverage(tier, merged):
         "exhaustive": not merged["capped"],
         "contracts": c.get("contracts", 0),
         "jump_programs": c.get("jump_programs", 0),
+        "code_copy_programs": c.get("copy_programs", 0),
     }
 
 
@@ -520,6 +592,9 @@ def replay(case):
         bad = check_contract(case["bs"], case["i"], case["j"], case["rep"])
         return {"violated": bool(bad), "obs": bad[:10],
                 "key": f"{bad[0][0]}:{bytes(case['bs']).hex()}:{case['i']}-{case['j']}:{case['rep']}" if bad else ""}
+    if case["kind"] == "copy":
+        bad, want = check_copy(case["tail"], case["op"], case["off"], case["size"], case["dst"], case["dirty"])
+        return {"violated": bool(bad), "obs": [bad], "key": f"copy:{bytes(case['tail']).hex()}:{case['op']}:{case['off']}:{case['size']}:{case['dst']}:{int(case['dirty'])}" if bad else ""}
     bad, want, res = check_jump(case["bs"], case["target"], case["cond"])
     return {"violated": bool(bad), "obs": [bad, want, str(res)],
             "key": f"jump:{bytes(case['bs']).hex()}:{case['target']}:{case['cond']}"}
